@@ -31,7 +31,9 @@ RULE = ("one run = a history of proposals (distinct priorities, 1-6 actors, repl
         "abstract digest of the operation sequence"
         " Values also carry binary fractions of a watt; two actors may share a priority (bounds only); the actor"
         " variant runs for battery / EV-charger / PV pools, may propose through"
-        " BatteryPool.propose_power/charge/discharge and lets the probe actor withdraw.")
+        " BatteryPool.propose_power/charge/discharge and lets the probe actor withdraw."
+        " Object-level time is the simulated loop clock (expired-but-not-yet-dropped proposals exist); bounds"
+        " outages (None, then back); last-handed-out target tracked.")
 QUICK_RUNS = 6000
 THOROUGH_RUNS = 400_000
 EXPECT_PROBES = ["conflict_free_step", "conflicting_step_skipped", "higher_priority_bounds_bind", "pref_inside_exclusion_zone",
